@@ -27,35 +27,39 @@ type Inst struct {
 	Name    string
 	G       kyber.Group
 	VarTime bool // call AllowVarTime(true) on every point
+	// HashOnly: points of unknown logarithm come from Hash only (Pick and Embed
+	// are implementation-specific across independent back-ends)
+	HashOnly bool
 }
 
 // PSuite is one pairing suite.
 type PSuite struct {
-	Name string
-	S    pairing.Suite
+	Name     string
+	S        pairing.Suite
+	HashOnly bool
 }
 
 func PairingSuites() []PSuite {
 	return []PSuite{
-		{"bn256", bn256.NewSuite()},
-		{"bn254", bn254.NewSuite()},
-		{"kilic", kilic.NewBLS12381Suite()},
-		{"circl", circl.NewSuiteBLS12381()},
-		{"gnark", gnark.NewSuiteBLS12381()},
+		{Name: "bn256", S: bn256.NewSuite()},
+		{Name: "bn254", S: bn254.NewSuite()},
+		{Name: "kilic", S: kilic.NewBLS12381Suite()},
+		{Name: "circl", S: circl.NewSuiteBLS12381()},
+		{Name: "gnark", S: gnark.NewSuiteBLS12381()},
 	}
 }
 
 // Groups returns the 20 exposed group instances.
 func Groups() []Inst {
 	gs := []Inst{
-		{"ed25519", edwards25519.NewBlakeSHA256Ed25519(), false},
-		{"ed25519+vartime", edwards25519.NewBlakeSHA256Ed25519(), true},
-		{"ed25519vartime-pkg", edwards25519vartime.NewBlakeSHA256Ed25519(false), false},
-		{"p256", p256.NewBlakeSHA256P256(), false},
-		{"qr512", p256.NewBlakeSHA256QR512(), false},
+		{Name: "ed25519", G: edwards25519.NewBlakeSHA256Ed25519()},
+		{Name: "ed25519+vartime", G: edwards25519.NewBlakeSHA256Ed25519(), VarTime: true},
+		{Name: "ed25519vartime-pkg", G: edwards25519vartime.NewBlakeSHA256Ed25519(false)},
+		{Name: "p256", G: p256.NewBlakeSHA256P256()},
+		{Name: "qr512", G: p256.NewBlakeSHA256QR512()},
 	}
 	for _, ps := range PairingSuites() {
-		gs = append(gs, Inst{ps.Name + ".G1", ps.S.G1(), false}, Inst{ps.Name + ".G2", ps.S.G2(), false}, Inst{ps.Name + ".GT", ps.S.GT(), false})
+		gs = append(gs, Inst{Name: ps.Name + ".G1", G: ps.S.G1()}, Inst{Name: ps.Name + ".G2", G: ps.S.G2()}, Inst{Name: ps.Name + ".GT", G: ps.S.GT()})
 	}
 	return gs
 }
@@ -102,6 +106,8 @@ type Prog struct {
 	Panic    string
 	NPick    int
 	NInPlace int
+	Enc      [3][]string // hex encodings of all points at the end
+	ScEnc    []string    // hex encodings of all scalars at the end
 }
 
 type runner struct {
@@ -471,6 +477,9 @@ func (x *runner) stepPoint(gi int) {
 		d := r.BigBelow(x.q)
 		ok := false
 		how := []string{"Pick", "Hash", "Embed"}[r.Intn(3)]
+		if x.in.HashOnly {
+			how = "Hash"
+		}
 		ds := x.pickDest(gi, nm(how))
 		switch how {
 		case "Pick":
@@ -646,7 +655,7 @@ func RunGroup(r *vh.Rng, in Inst, nops int, rep *vh.Report) *Prog {
 
 // RunPairing generates and runs one program on a pairing suite (three pools + Pair/ValidatePairing).
 func RunPairing(r *vh.Rng, ps PSuite, nops int, rep *vh.Report) *Prog {
-	in := Inst{Name: ps.Name, G: ps.S.G1()}
+	in := Inst{Name: ps.Name, G: ps.S.G1(), HashOnly: ps.HashOnly}
 	x := &runner{r: r, in: in, q: Order(ps.S.G1()), unsup: map[string]bool{}, okops: map[string]bool{}, prog: &Prog{}, suite: ps.S, inPlace: 25}
 	x.groups = [3]kyber.Group{ps.S.G1(), ps.S.G2(), ps.S.GT()}
 	x.prog.Q = x.q
@@ -678,6 +687,14 @@ func (x *runner) finish(rep *vh.Report, where string) {
 	}
 	for gi := 0; gi < 3; gi++ {
 		x.prog.Part[gi] = partition(x.pts[gi], rep, where)
+		for _, p := range x.pts[gi] {
+			b, _ := p.MarshalBinary()
+			x.prog.Enc[gi] = append(x.prog.Enc[gi], vh.Hex(b))
+		}
+	}
+	for _, s := range x.sc {
+		b, _ := s.MarshalBinary()
+		x.prog.ScEnc = append(x.prog.ScEnc, vh.Hex(b))
 	}
 }
 
